@@ -88,6 +88,8 @@ def run(ctx):
                 bad = 'a %d x %d matrix reports the shape %s' % (R, C, d.get('@shape_matrix'))
             if not bad and '@transposed_matrix' in d and d['@transposed_matrix'] != [x for j in range(C) for i in range(R) for x in (str(i * C + j), str(i * C + j))]:
                 bad = 'the transposed view of a %d x %d matrix does not expose (i,j) as (j,i) through its two-index accessors' % (C, R)
+            if not bad and '@transposed_diag' in d and d['@transposed_diag'] != [x for a in range(T) for i in range(R) for x in (str(a * R + i), str(a * R + i))]:
+                bad = 'the transposed view of a diagonal tensor (%d groups, %d layers) does not expose (k, a) as (k, a) through its two-index accessors' % (R, T)
             if bad:
                 ctx.violation('layout', bad, {'case': line, 'impl': d})
         for line in waff:
